@@ -203,6 +203,7 @@ theorem simple_conversion_exact (hσ : ∀ k, σ k ≠ 0) {K : List Dim} (hK : K
     (h : CM.exec (convert q t) c = (.ok r, c')) :
     r.unit = t ∧ r.mag.val * unitSz σ c.st t = q.mag.val * unitSz σ c.st q.unit := by
   obtain ⟨hg, ho, hw⟩ := reach_graphOK hσ hr
-  exact convert_simple_exact hσ hK hKw hg hw ho hq ht hfs hft hspec h
+  obtain ⟨h1, h2, _⟩ := convert_simple_exact hσ hK hKw hg hw ho hq ht hfs hft hspec h
+  exact ⟨h1, h2⟩
 
 end Measured.C05
